@@ -626,13 +626,11 @@ package analysis
 //@ fun idxKeysWF(s *Spec) bool = (forall k in dom(s.references.allRefs) :: len(k) >= 1 && s.references.allRefs[k].String() != "") && (forall k in dom(s.references.schemas) :: len(k) >= 1 && s.references.schemas[k].String() != "") && (forall k in dom(s.allSchemas) :: len(k) >= 1)
 //@ fun optsWF(opts *FlattenOpts) bool = opts != nil && opts.Spec != nil && opts.Spec.spec != nil && opts.flattenContext != nil && ctxWF(opts.flattenContext) && strfmt.Default != nil
 
-// reload re-analyzes: it establishes synced (C10) and, because every index key is "#" + a pointer and only non-empty
-// $refs are registered, the key well-formedness idxKeysWF (trusted here; the walk itself is verified in C11-C13)
 //@ func (s *Spec) reload()
 //@   assumed
 //@   requires s != nil
 //@   modifies heaps INDEX
-//@   ensures synced(s) && s.spec == old(s.spec) && idxKeysWF(s)
+//@   ensures synced(s) && s.spec == old(s.spec)
 
 //@ func importExternalReferences(opts)
 //@   assumed
@@ -1549,3 +1547,115 @@ package analysis
 //@   ensures result <==> nameTaken(definitions, name)
 //@   loop 1: invariant forall k in seen :: !strings.EqualFold(k, name)
 //@   loop 1: invariant forall k in seen :: k in dom(definitions)
+
+// ---------------------------------------------------------------- flatten.go: Flatten fails safe (C09), aspect safe
+//
+// Safety invariants threaded through the flatten phases: every key of the reference / schema indexes is a non-empty
+// string ("#" + pointer) and every indexed $ref is non-empty (idxKeysWF); the flatten bookkeeping is well formed
+// (ctxWF). The index part is proved over the walk (New, reload and the analyze* functions below).
+
+// BEGIN safe-walk (generated by /verif/tools/gen_safe_walk.py)
+//@ func (s *Spec) analyzeSchema(name, schema, prefix)
+//@   aspect safe
+//@   requires s != nil && schema != nil && idxMaps(s) && idxKeysWF(s)
+//@   modifies map s.allSchemas, map s.allOfs, map s.references.schemas, map s.references.allRefs, map s.patterns.schemas, map s.patterns.allPatterns, map s.enums.schemas, map s.enums.allEnums
+//@   ensures idxKeysWF(s)
+//@   loop 1: invariant idxKeysWF(s)
+//@   loop 2: invariant idxKeysWF(s)
+//@   loop 3: invariant idxKeysWF(s)
+//@   loop 4: invariant idxKeysWF(s)
+//@   loop 5: invariant idxKeysWF(s)
+//@   loop 6: invariant idxKeysWF(s)
+//@   loop 7: invariant idxKeysWF(s)
+
+//@ func (s *Spec) analyzeItems(name, items, prefix, location)
+//@   aspect safe
+//@   requires s != nil && idxMaps(s) && idxKeysWF(s)
+//@   modifies map s.references.items, map s.references.headerItems, map s.references.parameterItems, map s.references.allRefs, map s.patterns.items, map s.patterns.allPatterns, map s.enums.items, map s.enums.allEnums
+//@   ensures idxKeysWF(s)
+
+//@ func (s *Spec) analyzeParameter(prefix, i, param)
+//@   aspect safe
+//@   requires s != nil && idxMaps(s) && idxKeysWF(s)
+//@   modifies map s.references.parameters, map s.references.allRefs, map s.patterns.parameters, map s.patterns.allPatterns, map s.enums.parameters, map s.enums.allEnums, map s.references.items, map s.references.headerItems, map s.references.parameterItems, map s.patterns.items, map s.enums.items, map s.allSchemas, map s.allOfs, map s.references.schemas, map s.patterns.schemas, map s.enums.schemas
+//@   ensures idxKeysWF(s)
+
+//@ func (s *Spec) analyzeDefaultResponse(prefix, res)
+//@   aspect safe
+//@   requires s != nil && res != nil && idxMaps(s) && idxKeysWF(s)
+//@   modifies map s.references.responses, map s.references.allRefs, map s.patterns.headers, map s.patterns.allPatterns, map s.enums.headers, map s.enums.allEnums, map s.references.items, map s.references.headerItems, map s.references.parameterItems, map s.patterns.items, map s.enums.items, map s.allSchemas, map s.allOfs, map s.references.schemas, map s.patterns.schemas, map s.enums.schemas
+//@   ensures idxKeysWF(s)
+//@   loop 1: invariant idxKeysWF(s)
+
+//@ func (s *Spec) analyzeResponse(prefix, k, res)
+//@   aspect safe
+//@   requires s != nil && idxMaps(s) && idxKeysWF(s)
+//@   modifies map s.references.responses, map s.references.allRefs, map s.patterns.headers, map s.patterns.allPatterns, map s.enums.headers, map s.enums.allEnums, map s.references.items, map s.references.headerItems, map s.references.parameterItems, map s.patterns.items, map s.enums.items, map s.allSchemas, map s.allOfs, map s.references.schemas, map s.patterns.schemas, map s.enums.schemas
+//@   ensures idxKeysWF(s)
+//@   loop 1: invariant idxKeysWF(s)
+
+//@ func (s *Spec) analyzeOperation(method, path, op)
+//@   aspect safe
+//@   requires s != nil && idxMaps(s) && opsWF(s) && idxKeysWF(s)
+//@   modifies map s.operations, heap map[string]*spec.Operation, map s.consumes, map s.produces, map s.authSchemes, map s.allSchemas, map s.allOfs, map s.references.schemas, map s.references.responses, map s.references.parameters, map s.references.items, map s.references.headerItems, map s.references.parameterItems, map s.references.allRefs, map s.references.pathItems, map s.patterns.parameters, map s.patterns.headers, map s.patterns.items, map s.patterns.schemas, map s.patterns.allPatterns, map s.enums.parameters, map s.enums.headers, map s.enums.items, map s.enums.schemas, map s.enums.allEnums
+//@   ensures opsWF(s) && idxKeysWF(s)
+//@   loop 1: modifies map s.consumes
+//@   loop 2: modifies map s.produces
+//@   loop 3: modifies map s.authSchemes
+//@   loop 4: modifies map s.authSchemes
+//@   loop 5: modifies heap spec.Parameter, map s.allSchemas, map s.allOfs, map s.references.schemas, map s.references.responses, map s.references.parameters, map s.references.items, map s.references.headerItems, map s.references.parameterItems, map s.references.allRefs, map s.patterns.parameters, map s.patterns.headers, map s.patterns.items, map s.patterns.schemas, map s.patterns.allPatterns, map s.enums.parameters, map s.enums.headers, map s.enums.items, map s.enums.schemas, map s.enums.allEnums
+//@   loop 6: modifies heap spec.Response, map s.allSchemas, map s.allOfs, map s.references.schemas, map s.references.responses, map s.references.parameters, map s.references.items, map s.references.headerItems, map s.references.parameterItems, map s.references.allRefs, map s.patterns.parameters, map s.patterns.headers, map s.patterns.items, map s.patterns.schemas, map s.patterns.allPatterns, map s.enums.parameters, map s.enums.headers, map s.enums.items, map s.enums.schemas, map s.enums.allEnums
+//@   loop 1: invariant idxKeysWF(s)
+//@   loop 2: invariant idxKeysWF(s)
+//@   loop 3: invariant idxKeysWF(s)
+//@   loop 4: invariant idxKeysWF(s)
+//@   loop 5: invariant idxKeysWF(s)
+//@   loop 6: invariant idxKeysWF(s)
+
+//@ func (s *Spec) analyzeOperations(path, pi)
+//@   aspect safe
+//@   requires s != nil && pi != nil && idxMaps(s) && opsWF(s) && idxKeysWF(s)
+//@   modifies heap spec.Parameter, map s.operations, heap map[string]*spec.Operation, map s.consumes, map s.produces, map s.authSchemes, map s.allSchemas, map s.allOfs, map s.references.schemas, map s.references.responses, map s.references.parameters, map s.references.items, map s.references.headerItems, map s.references.parameterItems, map s.references.allRefs, map s.references.pathItems, map s.patterns.parameters, map s.patterns.headers, map s.patterns.items, map s.patterns.schemas, map s.patterns.allPatterns, map s.enums.parameters, map s.enums.headers, map s.enums.items, map s.enums.schemas, map s.enums.allEnums
+//@   ensures opsWF(s) && idxKeysWF(s)
+//@   loop 1: modifies heap spec.Parameter, map s.allSchemas, map s.allOfs, map s.references.schemas, map s.references.responses, map s.references.parameters, map s.references.items, map s.references.headerItems, map s.references.parameterItems, map s.references.allRefs, map s.patterns.parameters, map s.patterns.headers, map s.patterns.items, map s.patterns.schemas, map s.patterns.allPatterns, map s.enums.parameters, map s.enums.headers, map s.enums.items, map s.enums.schemas, map s.enums.allEnums
+//@   loop 1: invariant idxKeysWF(s)
+
+//@ func (s *Spec) initialize()
+//@   aspect safe
+//@   requires s != nil && s.spec != nil && idxMaps(s) && opsWF(s) && idxKeysWF(s)
+//@   modifies heap spec.Parameter, heap spec.PathItem, map s.operations, heap map[string]*spec.Operation, map s.consumes, map s.produces, map s.authSchemes, map s.allSchemas, map s.allOfs, map s.references.schemas, map s.references.responses, map s.references.parameters, map s.references.items, map s.references.headerItems, map s.references.parameterItems, map s.references.allRefs, map s.references.pathItems, map s.patterns.parameters, map s.patterns.headers, map s.patterns.items, map s.patterns.schemas, map s.patterns.allPatterns, map s.enums.parameters, map s.enums.headers, map s.enums.items, map s.enums.schemas, map s.enums.allEnums
+//@   ensures idxKeysWF(s)
+//@   loop 1: modifies map s.consumes
+//@   loop 2: modifies map s.produces
+//@   loop 3: modifies map s.authSchemes
+//@   loop 4: modifies map s.authSchemes
+//@   loop 5: modifies heap spec.Parameter, heap spec.PathItem, map s.operations, heap map[string]*spec.Operation, map s.consumes, map s.produces, map s.authSchemes, map s.allSchemas, map s.allOfs, map s.references.schemas, map s.references.responses, map s.references.parameters, map s.references.items, map s.references.headerItems, map s.references.parameterItems, map s.references.allRefs, map s.references.pathItems, map s.patterns.parameters, map s.patterns.headers, map s.patterns.items, map s.patterns.schemas, map s.patterns.allPatterns, map s.enums.parameters, map s.enums.headers, map s.enums.items, map s.enums.schemas, map s.enums.allEnums
+//@   loop 6: modifies map s.allSchemas, map s.allOfs, map s.references.schemas, map s.references.responses, map s.references.parameters, map s.references.items, map s.references.headerItems, map s.references.parameterItems, map s.references.allRefs, map s.references.pathItems, map s.patterns.parameters, map s.patterns.headers, map s.patterns.items, map s.patterns.schemas, map s.patterns.allPatterns, map s.enums.parameters, map s.enums.headers, map s.enums.items, map s.enums.schemas, map s.enums.allEnums
+//@   loop 7: modifies map s.allSchemas, map s.allOfs, map s.references.schemas, map s.references.responses, map s.references.parameters, map s.references.items, map s.references.headerItems, map s.references.parameterItems, map s.references.allRefs, map s.references.pathItems, map s.patterns.parameters, map s.patterns.headers, map s.patterns.items, map s.patterns.schemas, map s.patterns.allPatterns, map s.enums.parameters, map s.enums.headers, map s.enums.items, map s.enums.schemas, map s.enums.allEnums
+//@   loop 8: modifies map s.allSchemas, map s.allOfs, map s.references.schemas, map s.references.responses, map s.references.parameters, map s.references.items, map s.references.headerItems, map s.references.parameterItems, map s.references.allRefs, map s.references.pathItems, map s.patterns.parameters, map s.patterns.headers, map s.patterns.items, map s.patterns.schemas, map s.patterns.allPatterns, map s.enums.parameters, map s.enums.headers, map s.enums.items, map s.enums.schemas, map s.enums.allEnums
+//@   loop 9: modifies map s.allSchemas, map s.allOfs, map s.references.schemas, map s.references.responses, map s.references.parameters, map s.references.items, map s.references.headerItems, map s.references.parameterItems, map s.references.allRefs, map s.references.pathItems, map s.patterns.parameters, map s.patterns.headers, map s.patterns.items, map s.patterns.schemas, map s.patterns.allPatterns, map s.enums.parameters, map s.enums.headers, map s.enums.items, map s.enums.schemas, map s.enums.allEnums
+//@   loop 1: invariant idxKeysWF(s)
+//@   loop 2: invariant idxKeysWF(s)
+//@   loop 3: invariant idxKeysWF(s)
+//@   loop 4: invariant idxKeysWF(s)
+//@   loop 5: invariant opsWF(s) && idxKeysWF(s)
+//@   loop 6: invariant idxKeysWF(s)
+//@   loop 7: invariant idxKeysWF(s)
+//@   loop 8: invariant idxKeysWF(s)
+//@   loop 9: invariant idxKeysWF(s)
+
+// END safe-walk
+
+// (the walk takes the address of local copies of parameters and path items: its summaries name those cell heaps as a
+// whole, and the per-method operation maps; the document holds parameters and path items by value only)
+//@ func New(doc)
+//@   aspect safe
+//@   requires doc != nil
+//@   modifies heap spec.Parameter, heap spec.PathItem, heap map[string]*spec.Operation
+//@   ensures result != nil && fresh(result) && result.spec == doc && idxKeysWF(result)
+
+//@ func (s *Spec) reload()
+//@   aspect safe
+//@   requires s != nil && s.spec != nil
+//@   modifies heaps INDEX, heap spec.Parameter, heap spec.PathItem
+//@   ensures s.spec == old(s.spec) && idxKeysWF(s)
